@@ -51,3 +51,60 @@ PLANS['C20'] = dict(
          'pair of operands related by extension; distinct = distinct (length, nesting depth, ancestor-count profile).',
     assumptions=['A+B: a new element of B that extends only an earlier new element of B may sit on either side (DESIGN 3.20)'],
 )
+
+
+def cfg_jobs(tier, quick, thorough, cfgs, modes=('py', 'c')):
+    shards, cases = quick if tier == 'quick' else thorough
+    out = []
+    for m in modes:
+        for name, env in cfgs:
+            out.append(dict(mode=m, shards=shards, cases=cases, cfgname=name, env=env))
+    return out
+
+
+_STRICT = ('strict', {'ZOPE_INTERFACE_STRICT_IRO': '1'})
+_DEFAULT = ('', {})
+_LEGACY = ('legacy', {'ZOPE_INTERFACE_USE_LEGACY_IRO': '1'})
+_WARN = ('warn', {'ZOPE_INTERFACE_WARN_BAD_IRO': '1'})
+_TRACK = ('track', {'ZOPE_INTERFACE_TRACK_BAD_IRO': '1'})
+
+PLANS['C02'] = dict(
+    engine='specgraph', level='exploration',
+    jobs=lambda tier: cfg_jobs(tier, (3, 80), (8, 800), [_DEFAULT]) + cfg_jobs(tier, (1, 80), (4, 800), [_STRICT]),
+    minimums=lambda t: {'pair_checks': 20000, 'rebasings': 200, 'rebasings_changing_indirect_dependent': 50,
+                        'twin_comparisons': 2000, 'dependents_collected': 5},
+    rule='Random graphs of interfaces, plain Declarations, class declarations and instance declarations; random '
+         '__bases__ reassignments (direct and through the declaration API) at any depth, leaf dependents dropped and '
+         'collected; after every mutation every ordered pair of live specifications (+ root, empty declaration, foreign '
+         'interface) is compared with DFS reachability over current __bases__, and (non-strict) every __sro__ with '
+         'that of a freshly built twin graph.  Non-trivial: some rebasing changed the reach set of an indirect '
+         'dependent; distinct = distinct final graph shapes.',
+    assumptions=['generated graphs are acyclic', 'a re-basing that raised in strict mode ends the history (state unspecified)'],
+)
+PLANS['C03'] = dict(
+    engine='specgraph', level='exploration',
+    jobs=lambda tier: cfg_jobs(tier, (2, 100), (8, 1200), [_DEFAULT]) + cfg_jobs(tier, (1, 100), (3, 1200), [_STRICT, _LEGACY, _WARN, _TRACK]),
+    minimums=lambda t: {'nodes_checked': 10000, 'consistent_nodes': 3000, 'inconsistent_nodes': 300,
+                        'oracle_agreements': 10000, 'legacy_fallback_orders': 100, 'c3_differs_from_dfs': 50},
+    rule='Random ordered DAGs (>= 20% inconsistent nodes in the non-strict configurations) of interfaces, plain and class '
+         'declarations with rebasing histories, in configurations default/strict/legacy/warn/track, py and c; every node '
+         'after every mutation: validity of __sro__/__iro__, equality with C3 (own merge and CPython type.mro() of a mirrored '
+         'class graph, which must agree), ro.ro(strict=True) and is_consistent verdicts.  Non-trivial: graph has a node '
+         'with >= 2 bases; distinct = distinct final graph shapes.',
+    assumptions=['CPython type.mro() implements C3', 'Interface is never generated as a non-last explicit base'],
+)
+
+
+PLANS['C15'] = dict(
+    engine='attrs', level='exploration', jobs=lambda tier: both(tier, (4, 120), (8, 1500)),
+    minimums=lambda t: {'name_comparisons': 10000, 'names_defined_by_2plus_ancestors': 1000,
+                        'tags_defined_by_2plus_ancestors': 300, 'rebasings_with_warm_memo': 200,
+                        'invariants_from_2plus_ancestors': 100, 'verify_consumer_checks': 30},
+    rule='Random interface DAGs in which several ancestors define the same attribute/method names (methods with '
+         'different signatures), tags and invariants; every accessor (I[name], get, queryDescriptionFor, in, iter, '
+         'names(all), namesAndDescriptions(all), tagged-value queries, validateInvariants with/without list, verifyObject '
+         'as a consumer) is compared with first-definition-along-__iro__ computed from the harness\'s own record of '
+         'direct definitions; repeated cold, warm and after every rebasing.  Non-trivial: some name is defined with '
+         'different descriptions by >= 2 interfaces of one __iro__; distinct = distinct (bases, names, tags) worlds.',
+    assumptions=['__iro__ itself is decided by C02/C03'],
+)
